@@ -96,20 +96,36 @@ def all_close(xs, ys):
 
 
 # ----------------------------------------------------------------------------------------------
-class RecRng:
-    """records what `rng.choice` returned (the indices of the drawn triples), delegates to a real Generator"""
+class RecRng(np.random.Generator):
+    """a REAL numpy Generator (so `isinstance` checks and every Generator method work) that records what `choice` returned (the indices
+    of the drawn triples).  Signature-agnostic (HARDENING item 21): all arguments are forwarded unchanged."""
+
+    def __new__(cls, seed):
+        return super().__new__(cls, np.random.PCG64(seed))
 
     def __init__(self, seed):
-        self.g = np.random.default_rng(seed)
+        super().__init__(np.random.PCG64(seed))
         self.calls = []
+        self.g = self
 
     def choice(self, *a, **k):
-        out = self.g.choice(*a, **k)
-        self.calls.append([int(x) for x in np.asarray(out).ravel()])
+        out = super().choice(*a, **k)
+        try:
+            self.calls.append([int(x) for x in np.asarray(out).ravel()])
+        except Exception:  # noqa
+            pass
         return out
 
-    def __getattr__(self, name):
-        return getattr(self.g, name)
+
+def rsig(e):
+    """signature of an exception caught around an implementation call: `tie:wrapper` when it is the harness's own doing (item 21)"""
+    from harness.dbal_cli import harness_fault
+    return "tie:wrapper" if harness_fault(e) else "raises"
+
+
+def _first(args, kwargs):
+    from harness.dbal_cli import first_arg
+    return first_arg(args, kwargs)
 
 
 def triples_of(gd, calls, n):
@@ -128,26 +144,27 @@ class StubTheta:
     def __init__(self, i):
         self.i = i
 
-    def predict_conditional_mean(self, screen):
-        return screen.means[self.i]
+    # stand-ins for the repo's interfaces: the argument may arrive positionally or under any keyword name (item 21)
+    def predict_conditional_mean(self, *args, **kwargs):
+        return _first(args, kwargs).means[self.i]
 
-    def predict_conditional_variance(self, screen):
-        return screen.variances[self.i]
+    def predict_conditional_variance(self, *args, **kwargs):
+        return _first(args, kwargs).variances[self.i]
 
 
 class StubThetas:
     def __init__(self, n):
         self.n_thetas = n
 
-    def get_theta(self, i):
-        return StubTheta(int(i))
+    def get_theta(self, *args, **kwargs):
+        return StubTheta(int(_first(args, kwargs)))
 
 
 class StubDM:
     def __init__(self, d):
         self.d = d
 
-    def to_dense(self):
+    def to_dense(self, *args, **kwargs):
         return self.d
 
 
@@ -344,10 +361,20 @@ def eval_case(case, want_tie=True):
         try:
             out = fn(*a, rng=rng, **k)
         except Exception as e:  # noqa
+            if rsig(e) != "raises":
+                own_faults.append(type(e).__name__ + ": " + str(e)[:200])
             return "err:" + type(e).__name__ + ": " + str(e)[:200], []
-        return out, triples_of(gd, rng.calls, n)
+        try:
+            return out, triples_of(gd, rng.calls, n)
+        except Exception:  # noqa
+            return out, []
+
+    own_faults = []
 
     def bad(what, observed, required, sig=None):
+        if own_faults:          # a wrapper / stub of the harness failed in this case: nothing here is an oracle failure (item 21)
+            fails.append((what, {"harness": own_faults[0], "observed": observed}, required, "tie:wrapper"))
+            return
         fails.append((what, observed, required, sig or what))
 
     # ---- reference -------------------------------------------------------------------------
@@ -622,7 +649,7 @@ def bigtheta_case(subseed, n, want_tie=True):
             try:
                 got = [float(x) for x in entry(name, budget, r.randrange(2 ** 32), RecArr(D, log))]
             except Exception as e:  # noqa
-                fails.append(("%s entry point raises on valid input" % name, {"entry": name, "max_combos": budget, "error": type(e).__name__ + ": " + str(e)[:200]}, "scores", "raises"))
+                fails.append(("%s entry point raises on valid input" % name, {"entry": name, "max_combos": budget, "error": type(e).__name__ + ": " + str(e)[:200]}, "scores", rsig(e)))
                 continue
             ts = used_triples(log)
             n_used = sorted(set(len(t) for t in ts)) if ts else None
@@ -650,7 +677,7 @@ def bigtheta_case(subseed, n, want_tie=True):
             try:
                 entry(name, budget, r.randrange(2 ** 32), RecArr(D, log))
             except Exception as e:  # noqa
-                fails.append(("%s entry point raises on valid input" % name, {"entry": name, "max_combos": budget, "error": type(e).__name__ + ": " + str(e)[:200]}, "scores", "raises"))
+                fails.append(("%s entry point raises on valid input" % name, {"entry": name, "max_combos": budget, "error": type(e).__name__ + ": " + str(e)[:200]}, "scores", rsig(e)))
                 continue
             ts = used_triples(log)
             if ts is None:
@@ -706,8 +733,10 @@ def cli_case(case):
     fails = []
     rec = dc.run_cli(case["subseed"], n, budget, mc, case["seed"], verbose=case.get("verbose", False), split_files=case.get("split", True),
                      n_chunks=case.get("n_chunks", 1), chunk_index=case.get("chunk_index", 0))
+    for f_ in rec.get("faults", []):
+        fails.append(("the harness's recorder could not cope with a call", f_, "recorded", "tie:wrapper"))
     if "error" in rec:
-        fails.append(("calculate_scores.main() raises on valid input", rec["error"], "a scores file", "cli-raises"))
+        fails.append(("calculate_scores.main() raises on valid input", rec["error"], "a scores file", "tie:wrapper" if rec.get("error_in_harness") else "cli-raises"))
         return fails, {}
     D = rec["D"]
     all_triples = [(a, b, cc) for a in range(n) for b in range(a) for cc in range(b)]
@@ -781,7 +810,7 @@ def classes_case(subseed):
                     distance_matrix=StubDM(np.array(D)), samples=StubThetas(n), rng=np.random.default_rng(rnd), progress_bar=False)
                 got[nm] = [float(o[i]) for i in range(len(ms))]
         except Exception as e:  # noqa
-            fails.append(("an entry point raises on valid temporaries", {"class": "identity-temporaries", "round": rnd, "error": type(e).__name__ + ": " + str(e)[:200]}, "scores", "raises"))
+            fails.append(("an entry point raises on valid temporaries", {"class": "identity-temporaries", "round": rnd, "error": type(e).__name__ + ": " + str(e)[:200]}, "scores", rsig(e)))
             break
         badk = [k for k, v_ in got.items() if not all_close(v_, ref)]
         if badk:
@@ -808,7 +837,7 @@ def classes_case(subseed):
             rf = RecRng(s2)
             of = gd.GaussianDBALScorer(max_chunk=2, max_triples=budget).score(plates=plates, distance_matrix=StubDM(np.array(D)), samples=StubThetas(n), rng=rf, progress_bar=False)
         except Exception as e:  # noqa
-            fails.append(("scorer raises on valid input", {"class": "reuse-other-seed", "error": type(e).__name__ + ": " + str(e)[:200]}, "scores", "raises"))
+            fails.append(("scorer raises on valid input", {"class": "reuse-other-seed", "error": type(e).__name__ + ": " + str(e)[:200]}, "scores", rsig(e)))
             break
         g2 = [float(o2[i]) for i in ids]
         if not all_close(g2, ref) or not all_close([float(of[i]) for i in ids], g2):
@@ -851,7 +880,7 @@ def classes_case(subseed):
                 fails.append(("scorer attributes after instalments differ from those after one call", sorted(vars(sc)), sorted(vars(one_sc)), "tie:instalments-state"))
             counts["class.instalments"] = 1
     except Exception as e:  # noqa
-        fails.append(("scorer raises on valid input", {"class": "instalments", "error": type(e).__name__ + ": " + str(e)[:200]}, "scores", "raises"))
+        fails.append(("scorer raises on valid input", {"class": "instalments", "error": type(e).__name__ + ": " + str(e)[:200]}, "scores", rsig(e)))
 
     # ---- 13. integer-width boundaries: plate widths and plate counts 127 / 128 / 129 / 255 / 256 / 257 --------------------------------
     n = 3
@@ -869,7 +898,7 @@ def classes_case(subseed):
                     distance_matrix=StubDM(np.array(D)), samples=StubThetas(n), rng=np.random.default_rng(2), progress_bar=False)
                 sco = [float(o[i]) for i in range(len(ms))]
             except Exception as e:  # noqa
-                fails.append(("an entry point raises on valid input", {"class": "width-boundaries", kind: w, "error": type(e).__name__ + ": " + str(e)[:200]}, "scores", "raises"))
+                fails.append(("an entry point raises on valid input", {"class": "width-boundaries", kind: w, "error": type(e).__name__ + ": " + str(e)[:200]}, "scores", rsig(e)))
                 continue
             if not all_close(het, ref) or not all_close(sco, ref):
                 k0 = next(i for i in range(len(ref)) if not (close(het[i], ref[i]) and close(sco[i], ref[i])))
@@ -1000,14 +1029,14 @@ def real_objects_case(subseed):
         def __init__(self, m, v):
             self.m, self.v = m, v
 
-        def predict_conditional_mean(self, d):
-            return self.m[d.selection_vector]
+        def predict_conditional_mean(self, *args, **kwargs):
+            return self.m[_first(args, kwargs).selection_vector]
 
-        def predict_conditional_variance(self, d):
-            return self.v[d.selection_vector]
+        def predict_conditional_variance(self, *args, **kwargs):
+            return self.v[_first(args, kwargs).selection_vector]
 
-        def predict_viability(self, d):
-            return self.m[d.selection_vector]
+        def predict_viability(self, *args, **kwargs):
+            return self.m[_first(args, kwargs).selection_vector]
 
         def private_parameters_dict(self):
             return {}
@@ -1061,7 +1090,7 @@ def real_objects_case(subseed):
         try:
             out = gd.GaussianDBALScorer(max_chunk=mc).score(plates=plates, distance_matrix=dm, samples=th, rng=rng, progress_bar=False)
         except Exception as e:  # noqa
-            fails.append(("scorer raises on a real screen", {"max_chunk": mc, "error": type(e).__name__ + ": " + str(e)[:200]}, "scores", "raises"))
+            fails.append(("scorer raises on a real screen", {"max_chunk": mc, "error": type(e).__name__ + ": " + str(e)[:200]}, "scores", rsig(e)))
             continue
         got = [float(out[k]) for k in ids] if [int(k) for k in out.keys()] == ids else None
         if got is None or not all_close(got, ref):
@@ -1078,6 +1107,8 @@ def emit(res, what, case, observed, required, sig, replaying=False):
     """`tie:` signatures are observations the property text does not state (or inputs outside its quantifier): they are reported as a
     broken tie (ends in `no-failing-input-found`), never as a concrete replay"""
     if sig.startswith("tie:"):
+        if sig == "tie:wrapper" and not replaying:
+            res.count("wrapper.unexpected-call")
         if not replaying:
             res.disagree("C05:" + sig[4:], case, observed, required)
         return
